@@ -139,7 +139,7 @@ def showEv : Ev → String
   | .cap b k e i vis => s!"cap:{b}:{k}:{e}:{i}:{showVis vis}"
   | .chainStart b k => s!"cs:{b}:{k}"
   | .cb b k id => s!"cb:{b}:{k}:{id}"
-  | .chainEnd b k => s!"ce:{b}:{k}"
+  | .chainEnd b k v => s!"ce:{b}:{k}:{showValue v}"
   | .handlerDef => "hd"
   | .handlerCall args => "hc:" ++ "(" ++ ",".intercalate (args.map showValue) ++ ")"
   | .joiner k args => s!"jn:{k}:" ++ "(" ++ ",".intercalate (args.map showValue) ++ ")"
